@@ -218,7 +218,8 @@ theorem IndRel.leadingComments {a b : CW} (h : IndRel a b) (cs : List Bytes) :
     have hpt : a.pretty = true := by
       simp only [Bool.or_eq_true, Bool.not_eq_true', not_or] at hc; simpa using hc.1
     have h1 := IndRel.commentsLoop cs true h
-    have h2 : IndRel ({ a.commentsLoop cs true with pendings := [] }) ({ b.commentsLoop cs true with pendings := [] }) :=
+    have h2 : IndRel ({ a.commentsLoop cs true with pendings := [], clog := (a.commentsLoop cs true).clog ++ cs })
+        ({ b.commentsLoop cs true with pendings := [], clog := (b.commentsLoop cs true).clog ++ cs }) :=
       ⟨h1.pretty, h1.level, h1.semis, rfl, h1.ok, h1.mapA, h1.mapB, h1.out, h1.wsA, h1.wsB, Or.inl rfl⟩
     have h3 := h2.writeNewline
     refine h3.writeIndent ?_
